@@ -225,6 +225,58 @@ UPDATE_RESTRS_STEP = Contract(
         ("other_suffixes_untouched", "forall(STR, lambda s: implies(s != suffix, (s in self.restrs) == old(s in self.restrs) and "
                                      "implies(s in self.restrs, self.restrs[s] == old(self.restrs[s]))))"),
     ],
-    frame=["TestNode.restrs"], props=["C11", "C08"],
+    frame=["TestNode.restrs"], props=["C11", "C08", "C09"],
     assumes=["extracted block: body of the loop over the given restrictions; str.splitlines / rstrip uninterpreted"],
+)
+
+
+# ---------------------------------------------------------------- parse_node_from_object (C11): command line K=V parsed last
+GRAPHF = "avocado_i2n/cartgraph/graph.py"
+
+
+def _parse_step_block(fn):
+    out, on = [], False
+    for s in fn.body:
+        if isinstance(s, _ast.Assign) and _ast.unparse(s.targets[0]) == "setup_dict":
+            on = True
+        if on:
+            out.append(s)
+        if on and isinstance(s, _ast.Expr) and "parse_next_batch" in _ast.unparse(s):
+            break
+    return out
+
+
+def _recipe_copy(eng, st, recv, args, kw, node):
+    yield st, _C.VModule("recipe")
+
+
+_schema_mod = __import__("contracts.schema", fromlist=["SCHEMA"])
+_schema_mod.SCHEMA["TestObject"]["fields"].setdefault("recipe", Ref("Reparsable"))
+_schema_mod.SCHEMA.setdefault("Reparsable", {"fields": {}, "methods": {"get_copy": _recipe_copy}})
+from pyvc.contract import seam_handler as _seam                                           # noqa: E402
+from pyvc.kinds import NONE as _NONE                                                       # noqa: E402
+
+PARSE_NODE_STEP = Contract(
+    target=f"{GRAPHF}::TestGraph.parse_node_from_object", name="TestGraph.parse_node_from_object#parse_step",
+    block=("parse_step", _parse_step_block),
+    params={"test_object": Ref("TestObject"), "restriction": STR, "params": Ref("Params")},
+    requires=["test_object.recipe is not None"],
+    overrides={"recipe.parse_next_batch": _seam("parse_step", None), "param.tests_ovrwrt_file": _seam("ovrwrt_file", STR)},
+    extra_names={"param": _C.VModule("param")},
+    outputs={"setup_dict": Ref("Params")},
+    ensures=[
+        # the runtime (command line) parameters are the LAST parsing step of every composite test: they override the
+        # configuration files and the user's overwrite file
+        ("runtime_parameters_parsed_last", "ghost('parse_step.calls') == old(ghost('parse_step.calls')) + 1 and "
+                                           "ghost('parse_step.kwnames', SeqOf(STR)) == ['base_file', 'ovrwrt_dict', 'ovrwrt_file', 'ovrwrt_str'] and "
+                                           "ghost('parse_step.kw.ovrwrt_dict', Ref('Params')) == setup_dict and "
+                                           "ghost('parse_step.kw.ovrwrt_str', STR) == restriction and "
+                                           "ghost('parse_step.kw.base_file', STR) == 'sets.cfg'"),
+        ("runtime_parameters_passed_on", "setup_dict['nets'] == test_object.suffix and forall(STR, lambda k: implies(k != 'nets' and k in params, "
+                                         "k in setup_dict and setup_dict[k] == params[k]))"),
+        ("callers_parameters_untouched", "forall(STR, lambda k: (k in params) == old(k in params) and implies(k in params, params[k] == old(params[k])))"),
+    ],
+    frame=["Params.p_has", "Params.p_val"], props=["C11"],
+    assumes=["extracted block: the statements of parse_node_from_object that configure the parser of the new node; "
+             "Reparsable.parse_next_batch is a seam (its step order base -> overwrite file -> string -> dict is its own contract)"],
 )
